@@ -18,6 +18,8 @@ import sys
 import threading
 from typing import Any, Callable
 
+from . import simthreads
+
 
 class SimAbort(BaseException):
     """Cancellation-shaped fault (KeyboardInterrupt-like): not an ``Exception``."""
@@ -31,11 +33,24 @@ class StepCap(HarnessError):
     pass
 
 
+class SimDeadlock(HarnessError):
+    """Every simulated thread waits for a lock that another one holds (or that nobody will ever
+    release) while a caller's operation has not returned.  Raised by ``Scheduler.run``; a check
+    that judges operations may turn it into a verdict (an operation that never returns)."""
+
+
 class Client:
     def __init__(self, idx: int) -> None:
         self.idx = idx
-        self.sem = threading.Semaphore(0)
+        self.sem = simthreads.RawSem()
         self.finished = False
+        # threads and locks made by the code under test (simthreads)
+        self.adopted = False  # a thread the library started itself, adopted by the scheduler
+        self.root: "Client" = self  # the caller thread on whose behalf this thread works
+        self.blocked_on: Any = None  # cooperative lock this thread waits for
+        self.deadline: float | None = None  # simulated time at which a timed wait expires
+        self.timed_out = False
+        self.exit_lock: Any = None  # held while an adopted thread lives (join waits for it)
         self.started = False
         self.thread: threading.Thread | None = None
         self.priority = 0
@@ -81,7 +96,9 @@ class Scheduler:
         self.events = hashlib.sha256()  # event-log digest (decisions + op records)
         self.interleaving = hashlib.sha256()  # (thread, location) at switches + op order
         self.loc_pairs: set[str] = set()
-        self.done = threading.Semaphore(0)
+        self.done = simthreads.RawSem()
+        self.sim_clock = 1000.0  # simulated seconds; advances only when a timed wait expires
+        self.deadlock: str | None = None
         self.current: Client | None = None
         self.probes: dict[str, int] = {}
         self._last_loc: dict[int, str] = {}
@@ -123,7 +140,8 @@ class Scheduler:
         return int(self._rng.expovariate(1.0 / self._gap))
 
     def _runnable(self) -> list[Client]:
-        return [c for c in self.clients if not c.finished]
+        return [c for c in self.clients
+                if not c.finished and (c.blocked_on is None or not c.blocked_on.locked())]
 
     def record(self, *items: Any) -> None:
         """Add a record to the event log digest (op results etc.)."""
@@ -306,7 +324,7 @@ class Scheduler:
         self.decisions.append([self.global_step, kind, cur.idx, nxt.idx, where])
         self.events.update(f"{self.global_step}:{kind}:{cur.idx}>{nxt.idx}@{where};".encode())
         self.interleaving.update(f"{kind}:{cur.idx}>{nxt.idx}@{where};".encode())
-        if kind == "sw":
+        if kind in ("sw", "blk", "tmo"):
             self.switches += 1
             if mid_op:
                 self.mid_op_switches += 1
@@ -318,13 +336,157 @@ class Scheduler:
 
     def finish(self, cur: Client) -> None:
         cur.finished = True
+        if cur.adopted and cur.exit_lock is not None:
+            cur.exit_lock.release()  # joiners become runnable
         self.global_step += 1
         nxt = self._pick_after_finish()
-        if nxt is None:
-            self.events.update(f"{self.global_step}:end;".encode())
-            self.done.release()
-            return
-        self._switch(cur, nxt, "fin", "-", mid_op=False)
+        kind = "fin"
+        while nxt is None:
+            if all(c.finished for c in self.clients if not c.adopted):
+                # every caller thread is done; what is left are background threads of the library
+                # that wait for work: the run is over
+                self.events.update(f"{self.global_step}:end;".encode())
+                self.done.release()
+                return
+            nxt = self._wake_by_time()
+            kind = "tmo"
+            if nxt is None:
+                if self._grace():
+                    nxt = self._pick_after_finish()
+                    kind = "fin"
+                    continue
+                self._declare_deadlock(cur)
+                return
+        self._switch(cur, nxt, kind, "-", mid_op=False)
+
+    # ------------------------------------------------------------------ library-made threads/locks
+    def adopt(self, thread: threading.Thread, parent: Client) -> Client:
+        """A thread started by a simulated thread becomes a client of this scheduler."""
+        c = Client(len(self.clients))
+        c.adopted = True
+        c.root = parent.root
+        c.thread = thread
+        c.trace_fn = self.make_trace(c)
+        c.exit_lock = simthreads.CoopLock()
+        c.exit_lock.acquire()
+        self._low -= 1
+        c.priority = self._low
+        thread.sim_client = c  # type: ignore[attr-defined]
+        self.clients.append(c)
+        self.probe("library_threads_adopted")
+        self.record("adopt", parent.idx, c.idx)
+        self.interleaving.update(f"adopt{parent.idx}>{c.idx};".encode())
+        return c
+
+    def arm_adopted(self, c: Client) -> None:
+        c.in_op = True
+        c.op_index = -1
+        if self.preempt_lines:
+            if self.granularity == "opcode":
+                c.suspended = 0
+            else:
+                sys.settrace(c.trace_fn)
+
+    def disarm_adopted(self, c: Client) -> None:
+        sys.settrace(None)
+        c.suspended = 1
+        c.in_op = False
+
+    def _choose_other(self, others: list[Client]) -> Client:
+        step = self.global_step
+        if self.mode == "explicit":
+            tgt = self._explicit.get(step)
+            if tgt is not None:
+                for c in others:
+                    if c.idx == tgt:
+                        return c
+                return others[tgt % len(others)]
+            return others[0]
+        if self.mode == "pct":
+            return max(others, key=lambda c: (c.priority, -c.idx))
+        return others[self._rng.randrange(len(others))]
+
+    def _wake_by_time(self) -> Client | None:
+        """Nobody is runnable: simulated time jumps to the earliest deadline of a timed wait."""
+        timed = [c for c in self.clients
+                 if not c.finished and c.blocked_on is not None and c.deadline is not None]
+        if not timed:
+            return None
+        w = min(timed, key=lambda c: (c.deadline, c.idx))
+        assert w.deadline is not None
+        self.sim_clock = max(self.sim_clock, w.deadline)
+        w.timed_out = True
+        self.probe("timed_wait_expired_in_simulated_time")
+        return w
+
+    def _grace(self) -> bool:
+        """A lock may be held by a thread OUTSIDE the simulation (one the library started while it
+        was imported): give it real time before calling the state a deadlock."""
+        for _ in range(50):
+            if any(not c.finished and c.blocked_on is not None and not c.blocked_on.locked()
+                   for c in self.clients):
+                self.probe("lock_released_by_thread_outside_the_simulation")
+                return True
+            simthreads._orig["sleep"](0.02)
+        return False
+
+    def _declare_deadlock(self, cur: Client) -> None:
+        waiting = [f"client {c.idx}{' (library thread)' if c.adopted else ''} at {self._last_loc.get(c.idx, '?')}"
+                   for c in self.clients if not c.finished and c.blocked_on is not None]
+        self.deadlock = "no simulated thread can run: " + "; ".join(waiting)
+        self.deadlock_locks = [c.blocked_on for c in self.clients
+                               if not c.finished and c.blocked_on is not None]
+        self.events.update(f"{self.global_step}:deadlock;".encode())
+        self.done.release()
+
+    def block_on(self, cur: Client, lock: Any, timeout: float | None) -> bool:
+        """``cur`` would block on ``lock``: hand the baton to a thread that can run.  Returns True
+        once the lock is held, False when the (simulated) timeout expired."""
+        self.probe("blocked_on_library_lock")
+        cur.blocked_on = lock
+        cur.deadline = None if timeout is None else self.sim_clock + timeout
+        where = "blocked:" + self._location(sys._getframe(2))
+        self._last_loc[cur.idx] = where
+        while True:
+            self.global_step += 1
+            if self.global_step > self.step_cap:
+                raise StepCap(f"step cap {self.step_cap} exceeded")
+            others = [c for c in self._runnable() if c is not cur]
+            kind = "blk"
+            if others:
+                nxt = self._choose_other(others)
+            else:
+                if not lock.locked():
+                    nxt = cur  # released by a thread outside the simulation
+                elif all(c.finished for c in self.clients if not c.adopted):
+                    # every caller thread is done and this background thread of the library waits
+                    # for work that will never come: the run is over
+                    self.events.update(f"{self.global_step}:end;".encode())
+                    self.done.release()
+                    cur.sem.acquire()  # parked; the process is about to exit
+                    raise SimAbort("the run is over")
+                else:
+                    w = self._wake_by_time()
+                    kind = "tmo"
+                    if w is None:
+                        if self._grace():
+                            continue
+                        self._declare_deadlock(cur)
+                        cur.sem.acquire()  # parked for good; the process is about to exit
+                        raise SimAbort("deadlocked run is being torn down")
+                    nxt = w
+            if nxt is not cur:
+                self._switch(cur, nxt, kind, where, mid_op=cur.in_op)
+                cur.sem.acquire()
+            if cur.timed_out:
+                cur.timed_out = False
+                cur.blocked_on = None
+                cur.deadline = None
+                return False
+            if lock._real.acquire(False):
+                cur.blocked_on = None
+                cur.deadline = None
+                return True
 
     # ------------------------------------------------------------------ tracing
     def make_trace(self, client: Client) -> Callable[..., Any]:
@@ -475,8 +637,10 @@ class Scheduler:
 
         if self.preempt_lines and self.granularity == "opcode":
             self._install_monitoring()
+        simthreads.install()
+        simthreads.ACTIVE = self
 
-        for c, body in zip(self.clients, bodies):
+        for c, body in zip(list(self.clients), bodies):
             c.trace_fn = self.make_trace(c)
             t = threading.Thread(target=runner, args=(c, body), name=f"sim-client-{c.idx}",
                                  daemon=True)
@@ -493,9 +657,22 @@ class Scheduler:
         self.current = first
         first.sem.release()
         finished = self.done.acquire(timeout=self.hang_timeout_s)
+        simthreads.ACTIVE = None
         self._uninstall_monitoring()
         if not finished:
             raise HarnessError("HARNESS-HANG: simulated clients did not finish")
+        if self.deadlock is not None:
+            from . import world
+            from .runner import Discard
+
+            if world.sink_lock_among(self.deadlock_locks):
+                # scenario, not library: the application's log handler uses the library from inside
+                # emit() (holding the handler's lock) while the library's OWN threads try to log
+                # through the same handler - that program deadlocks on any correct thread-pooled
+                # library; the run is discarded and counted, never judged
+                raise Discard("a log handler that re-enters the library deadlocks with threads the "
+                              "library runs itself")
+            raise SimDeadlock(self.deadlock)
         for c in self.clients:
             if c.error is not None:
                 raise HarnessError(f"client {c.idx} harness failure: {c.error!r}") from c.error
@@ -540,6 +717,9 @@ class Scheduler:
             self.client = client
 
         def __enter__(self) -> None:
+            # the section belongs to the THREAD that runs it: a caller-supplied object (log
+            # handler) may be called on a thread the library started itself
+            self.client = current_client() or self.client
             if self.sched.granularity == "opcode":
                 self.client.suspended += 1
             else:
@@ -559,8 +739,8 @@ class Scheduler:
     def explicit_schedule(self) -> dict[str, Any]:
         """The decisions actually taken, as an explicit (replayable, minimisable) tape."""
         return {"mode": "explicit", "granularity": self.granularity,
-                "switches": [[d[0], d[3]] for d in self.decisions if d[1] in ("sw", "fin", "start")],
-                "where": [d[4] for d in self.decisions if d[1] in ("sw", "fin", "start")]}
+                "switches": [[d[0], d[3]] for d in self.decisions if d[1] in ("sw", "fin", "start", "blk", "tmo")],
+                "where": [d[4] for d in self.decisions if d[1] in ("sw", "fin", "start", "blk", "tmo")]}
 
 
 def make_abort_exc(kind: str) -> BaseException:
